@@ -11,6 +11,7 @@ SASL_CONSTS = '''CONSTANTS
   MaxPeer = %(maxpeer)d
   MaxSteps = %(maxsteps)d
   Roles = {"client","server"}
+  MaxSess = %(maxsess)d
   Dev = %(dev)s
 '''
 
